@@ -14,4 +14,5 @@ var Targets = map[string]core.Target{
 	"C17": C17{},
 	"C18": C18{},
 	"C19": C19{},
+	"C20": C20{},
 }
